@@ -159,7 +159,11 @@ func (u *Unit) havocLoop(st *State, fr *Frame, lc *LoopContract) bool {
 			}
 		}
 		nv := u.havoc(st, a.Type().(*types.Pointer).Elem(), a.Comment)
-		inheritFresh(old, nv)
+		if u.onlyGrown(fr, lc, a) {
+			inheritFresh(old, nv)
+		} else {
+			markForeign(nv) // the loop may store a slice it did not allocate: neither fresh nor input
+		}
 		st.objs[p.Obj] = nv
 	}
 	var havocThrough func(addr ssa.Value) bool
@@ -702,4 +706,40 @@ func (u *Unit) onlyResliced(fr *Frame, lc *LoopContract, a *ssa.Alloc) bool {
 		}
 	}
 	return n > 0
+}
+
+// onlyGrown: every store to cell a inside the loop stores append(<a's own value>, ...), a make, or a value that
+// is not a slice — so a slice that was activation-fresh before the loop still is.
+func (u *Unit) onlyGrown(fr *Frame, lc *LoopContract, a *ssa.Alloc) bool {
+	if _, isSlice := a.Type().(*types.Pointer).Elem().Underlying().(*types.Slice); !isSlice {
+		return true
+	}
+	for blk := range lc.body {
+		for _, in := range blk.Instrs {
+			s, ok := in.(*ssa.Store)
+			if !ok || s.Addr != a {
+				continue
+			}
+			switch v := s.Val.(type) {
+			case *ssa.MakeSlice:
+			case *ssa.Call:
+				bi, ok := v.Common().Value.(*ssa.Builtin)
+				if !ok || bi.Name() != "append" {
+					return false
+				}
+				ld, ok := v.Common().Args[0].(*ssa.UnOp)
+				if !ok || ld.X != a {
+					return false
+				}
+			case *ssa.Slice:
+				ld, ok := v.X.(*ssa.UnOp)
+				if !ok || ld.X != a {
+					return false
+				}
+			default:
+				return false
+			}
+		}
+	}
+	return true
 }
